@@ -368,7 +368,7 @@ def callee_name(call):
   return None
 
 
-def inline_local_calls(mod, fn, depth=2, cls=None, only=None):
+def inline_local_calls(mod, fn, depth=2, cls=None, only=None, skip=()):
   """A deep copy of `fn` in which statement-level calls of module-local helper
   functions are replaced by the helper's body (parameters renamed to the
   argument names / bound by a prelude assignment, colliding helper locals
@@ -378,7 +378,8 @@ def inline_local_calls(mod, fn, depth=2, cls=None, only=None):
       x = f(a, b)      helper whose only return is its last statement
       return f(a, b)   any helper (its returns become the caller's)
 
-  Calls that do not fit are left alone.  Returns (new_fn, parent_map,
+  Calls that do not fit (or whose helper is named in `skip`: anchors a rule
+  looks for as calls) are left alone.  Returns (new_fn, parent_map,
   inlined: list of helper names).  Line numbers of inlined statements are the
   helper's own."""
   if cls is None:
@@ -398,7 +399,8 @@ def inline_local_calls(mod, fn, depth=2, cls=None, only=None):
     if call is None or level <= 0:
       return None
     callee = callee_of(mod, call, cls)
-    if callee is None or callee is fn or (only is not None and callee.name not in only):
+    if callee is None or callee is fn or (only is not None and callee.name not in only) \
+        or callee.name in skip:
       return None
     is_method = isinstance(call.func, ast.Attribute)
     try:
@@ -696,3 +698,198 @@ def dispatch_prefix(ctx):
         f"{O.VM}: run_instruction's dispatch `getattr(self, f\"byte_{{op.name}}\")` "
         f"not found (matches: {found})")
   return found[0]
+
+
+# -- small path-enumerating interpreter for list-building code ------------------------
+
+class NotUnderstood(Exception):
+  pass
+
+
+class ListPaths:
+  """Enumerates, path by path, the list a piece of straight-line / branching
+  code builds: `xs = [a]; if c: xs.append(b); if d: xs.reverse()`,
+  `if not c: return [a]` ... `return [b, a]`, also through module-local helper
+  functions (`for t in _order(x, y): ...`).
+
+  Values are ("list", items) / ("tuple", texts) / ("sym", node).  A path is a
+  tuple of (condition text, polarity) with `not` folded into the polarity;
+  helper parameters are substituted by the caller's argument expressions, so
+  all texts are in the root function's vocabulary.  Anything else that touches
+  a tracked list raises NotUnderstood (callers turn it into AnalysisError)."""
+
+  _MUTATORS = ("append", "insert", "reverse", "extend", "clear")
+
+  def __init__(self, mod, cls=None, depth=2):
+    self.mod, self.cls, self.depth = mod, cls, depth
+
+  # -- public ------------------------------------------------------------------
+  def at_loop(self, fn, loop):
+    """[(path, value)] of `loop.iter` for every path of fn that reaches `loop`
+    (a statement of fn's own body)."""
+    if loop not in fn.body:
+      raise NotUnderstood("the loop is not a top-level statement of the function")
+    env = {p: ("sym", ast.Name(id=p, ctx=ast.Load())) for p in params_of(fn)}
+    out = []
+    for kind, (env2, path), _ in self._run(fn.body, (env, ()), loop, 0, True):
+      if kind != "stop":
+        continue
+      for path2, val in self._eval_forking(loop.iter, env2, path, 0):
+        out.append((path2, val))
+    return out
+
+  # -- evaluation ----------------------------------------------------------------
+  def _node(self, e, env):
+    m = {k: v[1] for k, v in env.items() if v[0] == "sym"}
+    for n in ast.walk(e):
+      if isinstance(n, ast.Name) and n.id in env and env[n.id][0] != "sym" \
+          and isinstance(n.ctx, ast.Load):
+        raise NotUnderstood(f"`{src(e)[:40]}` reads the container `{n.id}`")
+    try:
+      return _subst(e, m)
+    except NotAPredicate as ex:
+      raise NotUnderstood(str(ex)) from ex
+
+  def _eval(self, e, env):
+    if isinstance(e, ast.List):
+      if any(isinstance(x, ast.Starred) for x in e.elts):
+        raise NotUnderstood("starred list element")
+      return ("list", tuple(self._eval(x, env) for x in e.elts))
+    if isinstance(e, ast.Tuple):
+      if any(isinstance(x, ast.Starred) for x in e.elts):
+        raise NotUnderstood("starred tuple element")
+      return ("tuple", tuple(src(self._node(x, env)) for x in e.elts))
+    if isinstance(e, ast.Name) and e.id in env:
+      return env[e.id]
+    return ("sym", self._node(e, env))
+
+  def _eval_forking(self, e, env, path, level):
+    """[(path, value)]: like _eval, a call of a module-local helper forks over
+    the helper's return paths."""
+    if isinstance(e, ast.Call) and level < self.depth:
+      callee = callee_of(self.mod, e, self.cls)
+      if callee is not None:
+        try:
+          pairs = _bind(callee, e, isinstance(e.func, ast.Attribute))
+          cenv = {}
+          for p, v in pairs:
+            val = self._eval(v, env)
+            if val[0] == "list":
+              raise NotUnderstood("a list is passed to a helper")
+            cenv[p] = val
+          outs = []
+          for kind, (_, path2), val in self._run(callee.body, (cenv, path), None, level + 1, False):
+            if kind == "return":
+              outs.append((path2, val))
+            elif kind == "end":
+              outs.append((path2, ("sym", ast.Constant(value=None))))
+          return outs
+        except (NotInlinable, NotUnderstood):
+          pass
+    return [(path, self._eval(e, env))]
+
+  def _cond(self, t, env):
+    pol = True
+    while isinstance(t, ast.UnaryOp) and isinstance(t.op, ast.Not):
+      t, pol = t.operand, not pol
+    return src(self._node(t, env)), pol
+
+  # -- statements ------------------------------------------------------------------
+  def _run(self, stmts, state, stop, level, root):
+    """Yields (kind, (env, path), value) with kind stop / return / end."""
+    if not stmts:
+      yield ("end", state, None)
+      return
+    st, rest = stmts[0], stmts[1:]
+    env, path = state
+    lists = {k for k, v in env.items() if v[0] == "list"}
+
+    def mentions(node):
+      return any(isinstance(n, ast.Name) and n.id in lists for n in ast.walk(node))
+
+    if st is stop:
+      yield ("stop", state, None)
+      return
+    if isinstance(st, ast.Return):
+      if st.value is None:
+        yield ("return", state, ("sym", ast.Constant(value=None)))
+      else:
+        for path2, val in self._eval_forking(st.value, env, path, level):
+          yield ("return", (env, path2), val)
+      return
+    if isinstance(st, ast.Raise):
+      return
+    if isinstance(st, ast.If):
+      text, pol = self._cond(st.test, env)
+      t0 = st.test
+      while isinstance(t0, ast.UnaryOp) and isinstance(t0.op, ast.Not):
+        t0 = t0.operand
+      for branch, truth in ((st.body, pol), (st.orelse, not pol)):
+        if (text, not truth) in path:
+          continue   # infeasible on this path
+        if isinstance(t0, ast.Constant) and bool(t0.value) != truth:
+          continue   # constant test: the other arm never runs
+        p2 = path if (text, truth) in path else path + ((text, truth),)
+        for kind, s2, val in self._run(list(branch), (dict(env), p2), stop, level, root):
+          if kind == "end":
+            yield from self._run(rest, s2, stop, level, root)
+          else:
+            yield (kind, s2, val)
+      return
+    if isinstance(st, ast.Assign) and len(st.targets) == 1 and isinstance(st.targets[0], ast.Name):
+      name = st.targets[0].id
+      for path2, val in self._eval_forking(st.value, env, path, level):
+        if isinstance(st.value, ast.Name) and val[0] == "list":
+          raise NotUnderstood(f"the list `{st.value.id}` gets a second name")
+        env2 = dict(env)
+        if val[0] == "sym" and root:
+          val = ("sym", ast.Name(id=name, ctx=ast.Load()))   # root locals stay symbols
+        env2[name] = val
+        yield from self._run(rest, (env2, path2), stop, level, root)
+      return
+    if isinstance(st, ast.Expr) and isinstance(st.value, ast.Call) \
+        and isinstance(st.value.func, ast.Attribute) and isinstance(st.value.func.value, ast.Name) \
+        and st.value.func.value.id in lists:
+      c = st.value
+      name, meth = c.func.value.id, c.func.attr
+      items = list(env[name][1])
+      if meth == "append" and len(c.args) == 1 and not c.keywords:
+        items.append(self._eval(c.args[0], env))
+      elif meth == "insert" and len(c.args) == 2 and isinstance(c.args[0], ast.Constant) \
+          and c.args[0].value == 0:
+        items.insert(0, self._eval(c.args[1], env))
+      elif meth == "reverse" and not c.args:
+        items.reverse()
+      elif meth == "extend" and len(c.args) == 1 and isinstance(c.args[0], ast.List):
+        items.extend(self._eval(c.args[0], env)[1])
+      elif meth == "clear" and not c.args:
+        items = []
+      else:
+        raise NotUnderstood(f"`{src(c)[:50]}` on a tracked list")
+      env2 = dict(env)
+      env2[name] = ("list", tuple(items))
+      yield from self._run(rest, (env2, path), stop, level, root)
+      return
+    if isinstance(st, ast.AugAssign) and isinstance(st.target, ast.Name) and st.target.id in lists:
+      if isinstance(st.op, ast.Add) and isinstance(st.value, ast.List):
+        env2 = dict(env)
+        env2[st.target.id] = ("list", env[st.target.id][1] + self._eval(st.value, env)[1])
+        yield from self._run(rest, (env2, path), stop, level, root)
+        return
+      raise NotUnderstood(f"`{src(st)[:50]}` on a tracked list")
+    # anything else must leave the tracked lists alone and must not leave the function
+    if mentions(st):
+      raise NotUnderstood(f"`{src(st)[:50]}` uses a tracked list")
+    if isinstance(st, (ast.For, ast.While, ast.With, ast.Try, ast.Match, ast.AsyncFor, ast.AsyncWith)):
+      if any(isinstance(n, (ast.Return, ast.Raise)) for n in walk_scope(st)) and not root:
+        raise NotUnderstood(f"compound statement at line {st.lineno} may leave the helper")
+      if root and any(isinstance(n, ast.Return) for n in walk_scope(st)) and stop is not None \
+          and st.lineno < stop.lineno:
+        pass   # paths that return early never reach the loop; the others continue
+    env2 = dict(env)
+    for n in walk_scope(st) if not isinstance(st, _SCOPES) else ():
+      if isinstance(n, ast.Name) and isinstance(n.ctx, ast.Store):
+        env2[n.id] = ("sym", ast.Name(id=n.id, ctx=ast.Load()))
+    if isinstance(st, _SCOPES[:2] + (ast.ClassDef,)):
+      env2[st.name] = ("sym", ast.Name(id=st.name, ctx=ast.Load()))
+    yield from self._run(rest, (env2, path), stop, level, root)
